@@ -14,7 +14,9 @@
 (*   (2) every accepted file (constructed or given):  g2 = g1 exactly,     *)
 (*       b3 = b2 byte for byte;                                            *)
 (*   (3) every repeated Write of the same font (same process or a fresh    *)
-(*       process) yields the same bytes.                                   *)
+(*       process) yields the same bytes; and Write does not change its     *)
+(*       argument (event "after": the projection of the written font,     *)
+(*       taken again after the writes, equals the one taken before).      *)
 (*                                                                         *)
 (* Events: reset, gen(i, projection), file(i, how, sha, len), fail.  A     *)
 (* "fail" event (Write, or Read of a written file, failed) is never        *)
@@ -172,6 +174,7 @@ PhaseB(i) == CASE i = 1 -> "b1" [] i = 2 -> "b2" [] i = 3 -> "b3"
 IsGen(i)   == Is("gen") /\ E.i = i
 IsFirst    == Is("file") /\ E.i \in 1..3 /\ E.how \in {"first", "input"}
 IsAgain    == Is("file") /\ E.i \in 1..2 /\ E.how \in {"again", "fresh"}
+IsAfter    == Is("after") /\ E.i \in 0..1     \* generation i projected again, after it has been written
 
 \* why the current line is not allowed (empty set = allowed)
 Why ==
@@ -189,11 +192,13 @@ Why ==
   ELSE IF IsAgain  THEN (IF ph # PhaseB(E.i) THEN {"out of order"}
                          ELSE IF bs[E.i] # <<E.sha, E.len>> THEN {"rewrite differs: " \o E.how}
                          ELSE {})
+  ELSE IF IsAfter  THEN (IF ph # PhaseB(E.i + 1) \/ (E.i = 0 /\ src # "built") THEN {"out of order"}
+                         ELSE Differ(IF E.i = 0 THEN g0 ELSE g1, E.f))     \* Write does not change its argument
   ELSE IF Is("fail") THEN {E.step \o " failed"}
   ELSE {"unknown event"}
 
 Clause == IF IsGen(1) THEN "roundtrip" ELSE IF IsGen(2) THEN "fixedpoint"
-          ELSE IF IsFirst THEN "bytes" ELSE IF IsAgain THEN "rewrite"
+          ELSE IF IsFirst THEN "bytes" ELSE IF IsAgain THEN "rewrite" ELSE IF IsAfter THEN "mutated"
           ELSE IF Is("fail") THEN "fail" ELSE "protocol"
 
 \* one string per bad case (TLC wraps long tuples over several lines, but not a string)
@@ -231,6 +236,11 @@ FileAgain ==
   /\ Good /\ IsAgain
   /\ UNCHANGED <<ph, src, cfg, g0, g1, bs>> /\ Consume(FALSE)
 
+\* the font that was written is still the same font
+After ==
+  /\ Good /\ IsAfter
+  /\ UNCHANGED <<ph, src, cfg, g0, g1, bs>> /\ Consume(FALSE)
+
 \* a line the property does not allow: report, then skip the rest of the case
 MarkBad ==
   /\ l <= Len(Trace) /\ ph # "skip" /\ Why # {}
@@ -244,7 +254,7 @@ SkipLine ==
   /\ l <= Len(Trace) /\ ph = "skip" /\ ~Is("reset")
   /\ UNCHANGED <<ph, src, cfg, g0, g1, bs>> /\ Consume(TRUE)
 
-Next == Reset \/ Gen0 \/ Gen1 \/ Gen2 \/ FileFirst \/ FileAgain \/ MarkBad \/ SkipLine
+Next == Reset \/ Gen0 \/ Gen1 \/ Gen2 \/ FileFirst \/ FileAgain \/ After \/ MarkBad \/ SkipLine
 Spec == Init /\ [][Next]_vars
 
 \* accepted: every line consumed, the last case complete, no case marked bad
